@@ -34,6 +34,22 @@ func AddRoutes(routes gin.IRoutes) {
 	routes.POST("/calculate", handle(calculate))
 }
 
+// epsilon is the convergence threshold of the playground's computations.
+const epsilon = 1e-15
+
+// iterationBound returns a number of iterations by which the exact EigenTrust
+// iteration with pre-trust bias a has converged to within e: the change
+// between consecutive iterates is at most 2 and shrinks by (1-a) per
+// iteration.  Iterating further can only chase floating-point noise,
+// which for an epsilon as small as ours may stay above it forever.
+func iterationBound(a, e float64) int {
+	n := 2
+	for x := 2.0; x > e && n < 1<<16; x *= 1 - a {
+		n++
+	}
+	return n
+}
+
 func handle(f func(gc *gin.Context) error) func(*gin.Context) {
 	return func(gc *gin.Context) {
 		if err := f(gc); err != nil {
@@ -168,8 +184,10 @@ func calculate(gc *gin.Context) error {
 	if err != nil {
 		return fmt.Errorf("cannot canonicalize discounts: %w", err)
 	}
+	alpha := float64(hunchPercent) / 100.0
 	trustScores, err := basic.Compute(gc.Request.Context(),
-		localTrust, preTrust, float64(hunchPercent)/100.0, 1e-15)
+		localTrust, preTrust, alpha, epsilon,
+		basic.WithMaxIterations(iterationBound(alpha, epsilon)))
 	if err != nil {
 		return fmt.Errorf("cannot compute EigenTrust scores: %w", err)
 	}
